@@ -394,6 +394,9 @@ type FCtx struct {
 	cache map[ssa.Value]*Term
 	depth int
 	busy  map[ssa.Value]bool
+	// DeadEdge: edges (pred block -> succ block) proven infeasible by a previous dataflow pass under the case split
+	// in force; phi nodes ignore the values flowing in over them.
+	DeadEdge map[[2]*ssa.BasicBlock]bool
 }
 
 func (a *Analyzer) NewFCtx(fn *ssa.Function, env map[ssa.Value]*Term, depth int) *FCtx {
@@ -896,8 +899,11 @@ func (c *FCtx) phiTerm(p *ssa.Phi) *Term {
 	// all edges equal?
 	var first *Term
 	same := true
-	for _, e := range p.Edges {
+	for i, e := range p.Edges {
 		if e == p {
+			continue
+		}
+		if c.DeadEdge != nil && c.DeadEdge[[2]*ssa.BasicBlock{p.Block().Preds[i], p.Block()}] {
 			continue
 		}
 		t := c.Term(e)
